@@ -20,6 +20,21 @@ Each is covered in the model: reader slices are guarded by the length check (C19
 indexing `m[hash % 32]` by the usable-cache invariant (C11 `load_usable`), `(*b)[0]` and the
 `binary.BigEndian` reads in `Interpret` by the `minLen` guard, the dissector's `p.data[i]` by the
 guards proved in `Props/C01Sflow`, the `DataSets[i][j]` of the encoders by their `range` loops.
+
+`guards*`: the control-flow skeleton of the hand-modelled decoders — every `if` / `for` / `range` / `switch case` /
+`break` / `continue` of reader, ipfix, netflow v9, netflow v5, sflow and packet sources with its condition text, in
+source order (plain `if err != nil` propagation is not a decision and is left out).  Each entry has its clause in
+the model: the reader guards are `Rd.readN`'s length test (C19); `for d.reader.Len() > 4` is `outer`;
+`setHeader.Length < 4` is `decodeSet`'s `badSetLen`; the set-id tests (`> 255`, `== 2 || == 3`, `>= 4 && <= 255`,
+`== 0`; v9: `== 0 || == 1`) are `setBody`'s dispatch; the record-loop condition is `setLoop`'s; `templateID == 0` /
+`ReadCount() == recordStart` are the zero-template / zero-length-record stops of the F2 repair; `leftoverBytes > 0`
+is `skipRest`; `ElementID > 0x8000` is `readSpec`'s enterprise test; the `i > 0; i--` loops are `readSpecs`;
+`fieldSpecifierLen == 65535` / `len8 == 255` are `dataLen`; the two field loops and `!ok` are `decFields`;
+`Version != …` / `Count < 1 || Count > 30` / `expectedLen > remainingLen` are the header validations; the sFlow
+sample / record loops and format switches are `Sflow.samples` / `flowRecords` / `counterRecords`;
+`HeaderLength > 1500`, `l != 16 && l != 28` are the F-series repairs' guards; the dissector length tests are the
+guards proved sufficient in `Props/C01Sflow`.  A changed bound, a new branch or a reordered test changes the list
+and breaks `guards_reviewed` in the property that owns the file (C19 reader, C03 ipfix, C06 v9, C08 v5, C07 sflow+packet).
 -/
 namespace Vflow.Spec.Sites
 
